@@ -66,6 +66,7 @@ type replay struct {
 	Kind  string `json:"kind"`
 	NIC   string `json:"nic"`
 	Hex   string `json:"hex"`
+	Hex2  string `json:"hex2,omitempty"` // pair: the second frame
 	Spare int    `json:"spare"`
 }
 
@@ -163,6 +164,18 @@ func main() {
 		for _, n := range nics() {
 			if n.name == r.Replay.NIC {
 				s, _ := packet.Config{Conn: nullConn{}, NICInfo: n.nic}.NewSession("")
+				if r.Replay.Kind == "pair" {
+					g, _ := hex.DecodeString(r.Replay.Hex2)
+					for i := 0; i < 3; i++ {
+						s.Parse(f)
+						s.Parse(g)
+					}
+					if allocs := testing.AllocsPerRun(3, func() { s.Parse(f); s.Parse(g) }); allocs != 0 {
+						fmt.Fprintf(os.Stderr, "REPRODUCED property=C16 alloc-mixed: alternating the two frames allocates %.1f objects per pair\n", allocs)
+						os.Exit(1)
+					}
+					continue
+				}
 				if sig, what, _ := checkFrame(s, "replay", f, r.Replay.Spare); sig != "" {
 					fmt.Fprintf(os.Stderr, "REPRODUCED property=C16 %s: %s\n", sig, what)
 					os.Exit(1)
@@ -174,7 +187,7 @@ func main() {
 	}
 	c := core.NewCtx(*prop, *tier, *job, *shard, *nshards, *out)
 	c.Res.Level = "exploration"
-	c.Res.Rule = "every full length frame template of every PayloadID class and address family (the C01/C02 template set: EtherTypes x source MAC classes own/router/multicast/client, on-LAN/off-LAN/zero sources, all classified UDP ports, TCP, ICMP, ARP, VLAN, long frames) that the reference decoder accepts, under each NIC configuration; per frame: data pointer of every view == &buf[reference offset], no view beyond the frame (also when the frame sits in a larger read buffer with stale bytes behind it, and when a UDP length field claims more than was received), write-through in both directions, and testing.AllocsPerRun(100, Parse)==0 once the source is tracked. distinct non-trivial = distinct accepted frames x NIC configuration"
+	c.Res.Rule = "every full length frame template of every PayloadID class and address family (the C01/C02 template set: EtherTypes x source MAC classes own/router/multicast/client, on-LAN/off-LAN/zero sources, all classified UDP ports, TCP, ICMP, ARP, VLAN, long frames) that the reference decoder accepts, under each NIC configuration; per frame: data pointer of every view == &buf[reference offset], no view beyond the frame (also when the frame sits in a larger read buffer with stale bytes behind it, and when a UDP length field claims more than was received), write-through in both directions, and testing.AllocsPerRun(100, Parse)==0 once the source is tracked; every ordered pair of accepted templates parsed alternately must not allocate either (state that remembers the previous frame), except pairs that are an IP change or an address conflict on every frame. distinct non-trivial = distinct accepted frames x NIC configuration"
 	c.Res.Assumptions = []string{"runs on the un-instrumented build of /repo's working tree (allocation counts of the shimmed build would measure the shims)", "the class space is finite and fully enumerated; the allocation count is a deterministic measurement per class"}
 	cfgs := nics()
 	if *tier != "thorough" {
@@ -218,6 +231,50 @@ func main() {
 				c.Count("spare_capacity_variants", 1)
 				if sig, what, _ := checkFrame(s, n.name+"/"+t.Name+"+spare", fr, 64); sig != "" {
 					c.Violate(sig, what, replay{Kind: "frame", NIC: n.name, Hex: hex.EncodeToString(fr), Spare: 64})
+				}
+			}
+		}
+		// mixed traffic: every ordered pair of accepted templates parsed alternately. A per-class measurement cannot see
+		// state that remembers the PREVIOUS frame (a one-entry cache, a "log when it changes" slot); a pair can.
+		// Pairs that legitimately change the tables on every frame are left out: the same MAC on two IPv4 addresses
+		// (each frame is an IP change) and one address used by two MACs (each frame re-binds it).
+		if c.Mine(0) {
+			type tf struct {
+				name string
+				buf  []byte
+				host *packet.Host
+			}
+			var acc []tf
+			for _, t := range tmpl.FrameTemplates(true) {
+				b := append(make([]byte, 0, len(t.Frame)), t.Frame...)
+				f, err := s.Parse(b)
+				if err != nil {
+					continue
+				}
+				acc = append(acc, tf{t.Name, b, f.Host})
+			}
+			for i := range acc {
+				for j := range acc {
+					a, b := acc[i], acc[j]
+					if i == j {
+						continue
+					}
+					if a.host != nil && b.host != nil && a.host != b.host {
+						if a.host.MACEntry == b.host.MACEntry && a.host.Addr.IP.Is4() && b.host.Addr.IP.Is4() {
+							continue
+						}
+						if a.host.Addr.IP == b.host.Addr.IP {
+							continue
+						}
+					}
+					c.Count("evaluations", 1)
+					c.Count("alternating_pairs", 1)
+					s.Parse(a.buf)
+					s.Parse(b.buf)
+					if allocs := testing.AllocsPerRun(3, func() { s.Parse(a.buf); s.Parse(b.buf) }); allocs != 0 {
+						c.Violate("alloc-mixed|"+a.name, fmt.Sprintf("%s: alternating %s and %s allocates %.1f objects per pair in steady state", n.name, a.name, b.name, allocs), replay{Kind: "pair", NIC: n.name, Hex: hex.EncodeToString(a.buf), Hex2: hex.EncodeToString(b.buf)})
+						break
+					}
 				}
 			}
 		}
